@@ -103,7 +103,7 @@ def check(ctx):
     hs = [h for h in ast.walk(sp) if isinstance(h, ast.ExceptHandler)]
     ok = bool(hs) and dotted(hs[0].type) == "httping.HTTPException" and "self.respondent.errored = True" in src(hs[0]) and not any(isinstance(x, ast.Raise) for x in ast.walk(hs[0]))
     ctx.check(ok, "T1-contain", sp, "Patron.serviceResponse records errored/error instead of raising", "a malformed response is recorded")
-    found = defects.run(repo, [f for q, f in scope.items() if "/aio/http/" in q], ("D1", "D3", "D4", "D5", "D6"))
+    found = defects.run(repo, [f for q, f in scope.items() if "/aio/http/" in q], ("D1", "D1b", "D3", "D4", "D5", "D5b", "D6"))
     for fd in found:
         ctx.bad(fd.rule, fd.node, fd.construct, fd.why)
     ctx.ok("D-scope", "ioflo/aio/http", "%d parse-scope functions without internal-error constructs" % len(scope))
@@ -119,7 +119,7 @@ def check(ctx):
         ctx.functions.add(repo.func_qual(f))
     ctx.floor("porter scope", len(pscope), 8)
     _http.decode_discipline(ctx, "D-decode", pscope)
-    found = defects.run(repo, list(pscope.values()), ("D1", "D3", "D4", "D5", "D6"))
+    found = defects.run(repo, list(pscope.values()), ("D1", "D1b", "D3", "D4", "D5", "D5b", "D6"))
     for fd in found:
         ctx.bad(fd.rule, fd.node, fd.construct, fd.why)
     ss = PO.own_method("serviceStewards")
